@@ -89,6 +89,8 @@ def gen_var(rng, name, dt, node_in_force, feat=None):
     dk = feat.get("def", rng.choice(["none", "dec", "hex", "rel0", "rel1", "dec", "hex"]))
     if dk != "none":
         v["def"] = value_tok(dk)
+    if "def" not in feat and dt in enc.INT and rng.random() < 0.08:
+        v["def"] = {"k": "empty"}      # "DefaultValue=" with nothing behind it, as many real files have
     vk = feat.get("val", rng.choice(["none", "none", "dec", "hex"]))
     if vk != "none":
         v["val"] = value_tok(vk)
@@ -108,7 +110,8 @@ def gen_var(rng, name, dt, node_in_force, feat=None):
         if lim in ("high", "both"):
             v["high"] = lim_tok(rng.choice([hi, hi - 1, -2 if signed else 1, rng.randint(lo, hi)]))
     if rng.random() < 0.25:
-        n, d = rng.choice([(1, 10), (1, 4), (5, 2), (-3, 8), (25, 1), (1, 1000)])
+        n, d = rng.choice([(1, 10), (1, 4), (5, 2), (-3, 8), (25, 1), (1, 1000), (1, 1024), (1, 65536), (45, 512),
+                           (1234567, 1), (1, 3)])
         v["factor"] = [n, d]
         v["unit"] = rng.choice(["mm", "rpm", "deg C", "%"])
         v["desc"] = text(rng, rng.randrange(100), special=False)
@@ -123,7 +126,7 @@ def gen_doc(rng, nobj=12, features=None):
     in_force = nodearg if nodearg >= 0 else (nodeid_file if has_dc else -1)
     doc = {"has_dc": has_dc, "nodeid_file": nodeid_file if has_dc else -1,
            "baud_file": rng.choice([-1, 125, 500, 1000]) if has_dc else -1,
-           "comments": "\n".join(text(rng, i, special=False) for i in range(rng.randrange(0, 4))),
+           "comments": "\n".join(text(rng, i, special=False) for i in range(rng.choice([0, 1, 2, 3, 3, 10, 12, 23]))),
            "has_comments": True, "devinfo": [], "baudrates": sorted(rng.sample(RATES, rng.randrange(0, 5))),
            "dummies": sorted(rng.sample(range(1, 8), rng.randrange(0, 3))), "objs": [], "nodearg": nodearg}
     for key, kind in DEVINFO:
@@ -141,7 +144,8 @@ def gen_doc(rng, nobj=12, features=None):
     feats = list(features or [])
     uniq = 0
     while len(doc["objs"]) < nobj or feats:
-        idx = rng.choice([rng.randrange(0x1000, 0x1C00), rng.randrange(0x2000, 0x6000), rng.randrange(0x6000, 0xA000)])
+        idx = rng.choice([rng.randrange(0x1000, 0x1C00), rng.randrange(0x2000, 0x6000), rng.randrange(0x6000, 0xA000),
+                          rng.choice([0x1FFF, 0x2000, 0x5FFE, 0x5FFF, 0x6000, 0x9FFF, 0xA000, 0xFFFF])])
         if idx in used or idx == 0x1017:
             continue
         used.add(idx)
@@ -200,6 +204,8 @@ def render_tok(tok, dt):
         x = tok["x"]
         num = {0: f"0x{x:X}", 1: f"0x{x:x}", 2: str(x)}[tok.get("numsp", 0)]
         return f"$NODEID+{num}" if tok["form"] == 0 else f"{num}+$NODEID"
+    if k == "empty":
+        return ""
     if k == "text":
         return "".join(chr(c) for c in tok["cps"])
     if k == "hex":
@@ -307,6 +313,8 @@ def _pv(x):
 def proj_var(od, parent, var):
     from canopen.objectdictionary import ODVariable
     fac = Fraction(var.factor).limit_denominator(100000) if var.factor is not None else Fraction(1)
+    if var.factor is not None and fac.numerator / fac.denominator != var.factor:
+        fac = Fraction(-999999, 1)      # not (the double nearest to) a small fraction: never what was written
     dotted = True
     if parent is not None:
         try:
@@ -500,14 +508,15 @@ def build_code_od(rng, nobj=10):
         if rng.random() < 0.3:
             v.storage_location = rng.choice(["RAM", "PERSIST_COMM", "ROM"])
         if rng.random() < 0.25:
-            n, d = rng.choice([(1, 10), (1, 4), (5, 2), (-3, 8), (25, 1)])
+            n, d = rng.choice([(1, 10), (1, 4), (5, 2), (-3, 8), (25, 1), (1, 1024), (1, 65536), (45, 512), (1234567, 1),
+                               (1, 3)])
             v.factor = n / d
             v.unit = rng.choice(["mm", "rpm", "deg C", "%"])
             v.description = text(rng, rng.randrange(100), special=False)
         return v
     while len(used) < nobj:
         idx = rng.choice([rng.randrange(0x1002, 0x2000), rng.randrange(0x2000, 0x6000), rng.randrange(0x6000, 0xA000),
-                          0x1000, 0x1001, 0x1018])
+                          0x1000, 0x1001, 0x1018, rng.choice([0x1FFF, 0x2000, 0x5FFE, 0x5FFF, 0x6000, 0x9FFF, 0xA000, 0xFFFF])])
         if idx in used:
             continue
         used.add(idx)
@@ -528,7 +537,7 @@ def build_code_od(rng, nobj=10):
             for s in range(1, n + 1):
                 obj.add_member(mkvar(text(rng, f"m{uniq}_{s}"), idx, s, dt if kind == "arr" else rng.choice(ALL_TYPES)))
             od.add_object(obj)
-    od.comments = "\n".join(text(rng, i, special=False) for i in range(rng.randrange(0, 4)))
+    od.comments = "\n".join(text(rng, i, special=False) for i in range(rng.choice([0, 1, 2, 3, 10, 11, 25])))
     di = od.device_information
     for key, kind in DEVINFO:
         if rng.random() < 0.7:
